@@ -296,12 +296,35 @@ class SymInterp:
         if isinstance(s, ast.FunctionDef):
             node = s
             nonlocals = [n for x in ast.walk(node) if isinstance(x, ast.Nonlocal) for n in x.names]
-            names = [a.arg for a in node.args.args]
+            names = [a.arg for a in node.args.posonlyargs + node.args.args]
+            kwonly = [a.arg for a in node.args.kwonlyargs]
+            # defaults are evaluated once, at definition time
+            dvals = dict(zip(names[len(names) - len(node.args.defaults):], [self.ev(d, env) for d in node.args.defaults]))
+            dvals.update({a: self.ev(d, env) for a, d in zip(kwonly, node.args.kw_defaults) if d is not None})
 
-            def closure(*args, _node=node, _env=env, _names=names, _nl=nonlocals):
+            def closure(*args, _node=node, _env=env, _names=names, _nl=nonlocals, _dvals=dvals, _kwonly=kwonly, **kwargs):
                 sc = Scope(_env, _nl)
+                if len(args) > len(_names) and _node.args.vararg is None:
+                    raise AnalysisError(f"{_node.name}() called with {len(args)} positional arguments")
+                for k, v in _dvals.items():
+                    dict.__setitem__(sc, k, v)
                 for k, v in zip(_names, args):
                     dict.__setitem__(sc, k, v)
+                if _node.args.vararg is not None:
+                    dict.__setitem__(sc, _node.args.vararg.arg, tuple(args[len(_names):]))
+                extra = {}
+                for k, v in kwargs.items():
+                    if k in _names or k in _kwonly:
+                        dict.__setitem__(sc, k, v)
+                    elif _node.args.kwarg is not None:
+                        extra[k] = v
+                    else:
+                        raise AnalysisError(f"{_node.name}() got an unexpected keyword argument {k!r}")
+                if _node.args.kwarg is not None:
+                    dict.__setitem__(sc, _node.args.kwarg.arg, extra)
+                missing = [k for k in _names + _kwonly if not dict.__contains__(sc, k)]
+                if missing:
+                    raise AnalysisError(f"{_node.name}() missing arguments {missing}")
                 self.depth += 1
                 if self.depth > self.max_depth:
                     raise AnalysisError(f"symbolic interpretation too deep in {_node.name}")
